@@ -423,6 +423,7 @@ func iterator(c *simkit.Choices, x *simkit.Ctx) *simkit.Violation {
 	t.Clock = &x.Clock
 	var perr error
 	skip := false
+	cur := 0
 	pi := simkit.Guard(func() {
 		it, err := gotype.NewIterator(t)
 		if err != nil {
@@ -430,6 +431,7 @@ func iterator(c *simkit.Choices, x *simkit.Ctx) *simkit.Violation {
 			return
 		}
 		for i, v := range vals {
+			cur = i
 			if i == nh {
 				t.Reset()
 				perr = it.Fold(v)
@@ -443,6 +445,11 @@ func iterator(c *simkit.Choices, x *simkit.Ctx) *simkit.Violation {
 		}
 	})
 	if pi != nil {
+		// a value that makes a NEW iterator panic as well is not a reuse question
+		if fp := simkit.Guard(func() { gotype.Fold(vals[cur], simkit.NewTap(nil)) }); fp != nil {
+			st.Probe("value-panics-on-a-new-iterator-too")
+			return nil
+		}
 		return &simkit.Violation{Kind: "panic", Site: "iterator" + pi.Site, Detail: pi.Value + "\n" + pi.Stack, Scenario: sc}
 	}
 	if skip {
